@@ -292,6 +292,21 @@ def handled(rng, tier):
                               ('identity_like', lambda: pp.identity_like(X, dtype=d), pp.SE3_type, 7), ('randn_like', lambda: pp.randn_like(X), pp.SE3_type, 7)):
         r = ctor(); evals += 1
         if r.ltype is not tp or r.shape[-1] != dim or r.dtype != d: fails.append(dict(clause='constructor_type', signature=nm))
+    # documented dtype of the *_like / identity / randn constructors: an explicit dtype wins over the documented default
+    for src_dt, want in ((torch.float64, torch.float32), (torch.float32, torch.float64)):
+        for gname in ('SO3', 'SE3', 'RxSO3', 'Sim3', 'so3', 'se3', 'rxso3', 'sim3'):
+            Xs = getattr(pp, 'randn_' + gname)(2, dtype=src_dt)
+            for nm, ctor in (('randn_like', lambda: pp.randn_like(Xs, dtype=want)), ('identity_like', lambda: pp.identity_like(Xs, dtype=want)),
+                             ('randn_like (default dtype)', lambda: pp.randn_like(Xs)), ('identity_like (default dtype)', lambda: pp.identity_like(Xs)),
+                             ('randn_' + gname, lambda: getattr(pp, 'randn_' + gname)(2, dtype=want)), ('identity_' + gname, lambda: getattr(pp, 'identity_' + gname)(2, dtype=want))):
+                try:
+                    r = ctor(); evals += 1
+                except Exception as e:
+                    fails.append(dict(clause='constructor_raises', signature=f'{nm}/{gname}', error=f'{type(e).__name__}: {e}'[:120])); continue
+                # documented defaults: randn_like -> dtype of the input; identity_like -> the global default dtype
+                exp_dt = (src_dt if nm.startswith('randn_like') else torch.get_default_dtype()) if 'default' in nm else want
+                if r.dtype != exp_dt or r.ltype is not Xs.ltype or tuple(r.lshape) != (2,):
+                    fails.append(dict(clause='constructor_type', signature=f'{nm}/{gname}', got=str(r.dtype), expected=str(exp_dt)))
     return dict(evaluations=evals, distinct_nontrivial=len(covered), rule='one call per name of HANDLED_FUNCTIONS with an applicable call form (names without one are listed as skipped); compared with the same call on the plain tensor',
                 bound=f'{len(covered)} of {len(set(HANDLED_FUNCTIONS))} names exercised', failures=fails[:8], samples=[dict(covered=covered[:12])],
                 skipped=[n for n in dict.fromkeys(HANDLED_FUNCTIONS) if calls.get(n) is None])
